@@ -2,7 +2,7 @@
 import ast
 import re
 
-from sa import pyflow
+from sa import pattern as pat, pyflow
 from sa.consteval import Evaluator, is_unknown
 from sa.loader import parent_chain, AnalysisError, enclosing_function
 
@@ -92,6 +92,18 @@ def run(repo, run, tier):
     for ca in cas:
         blk = block_of(ca)
         twins = [fa for fa in fas if block_of(fa) is blk]
+        if not twins:
+            # `fvalue = cvalue` placed after the if/else that holds the C assignment (same path, enclosing block)
+            holder = ca._parent
+            while holder is not None and not isinstance(holder, (ast.For, ast.FunctionDef)):
+                hb = block_of(holder) if isinstance(holder, ast.stmt) else None
+                if hb is not None:
+                    later = [fa for fa in fas if block_of(fa) is hb and fa.lineno > holder.lineno
+                             and pyflow.is_name(fa.value, "cvalue")]
+                    if later:
+                        twins = later
+                        break
+                holder = getattr(holder, "_parent", None)
         construct = "ast.EnumNode.__init__:cvalue=%s" % _norm(am.seg(ca.value))[:50]
         if not twins:
             run.check(R1, construct, False, "no Fortran twin assignment in the same block", am.loc(ca))
@@ -123,8 +135,18 @@ def run(repo, run, tier):
               "C_value must be stored exactly when the member has an explicit value", am.loc(value_loop))
     # the int() fast path evaluates the printed C++ expression
     ints = [n for n in ast.walk(value_loop) if isinstance(n, ast.Call) and pyflow.is_name(n.func, "int")]
-    run.check(R1, "ast.EnumNode.__init__:int-literal", len(ints) == 1 and "print_node(member.value)" in am.seg(ints[0]),
+    lit_names = set(a.targets[0].id for a in ast.walk(value_loop) if isinstance(a, ast.Assign)
+                    and isinstance(a.targets[0], ast.Name) and "print_node(member.value)" in am.seg(a.value))
+    ok = bool(ints) and all("print_node(member.value)" in am.seg(c.args[0]) or
+                            (isinstance(c.args[0], ast.Name) and c.args[0].id in lit_names) for c in ints)
+    run.check(R1, "ast.EnumNode.__init__:int-literal", ok,
               "integer literals must be taken from the parsed value expression", am.loc(value_loop))
+    # C++ radix: a literal with a leading 0 is octal
+    octal = [c for c in ints if len(c.args) == 2 and isinstance(c.args[1], ast.Constant) and c.args[1].value == 8]
+    guarded = any("[0] == '0'" in am.seg(t) for c in octal for t, pol in pyflow.dominating_tests(c, stop=value_loop) if pol)
+    run.check(R1, "ast.EnumNode.__init__:octal-literal", bool(octal) and guarded,
+              "an enumerator literal with a leading 0 is octal in C++ (`A = 010` is 8): evaluating it with int(text) "
+              "gives 10 in the C header and the Fortran parameter", am.loc(value_loop))
 
     # ---- R2 (mode flag): the variable that selects integer / symbolic successor computation is loop-carried;
     # each way of evaluating an explicit value must (re-)establish it, otherwise the mode of an earlier
@@ -288,8 +310,21 @@ def run(repo, run, tier):
               "BinaryOp(lhs, op, rhs) must be built from the operator token and the parsed right operand exactly as "
               "written (each assigned once per iteration): rewriting `a + -b` or `a - -b` changes values", dm.loc(ex))
     # print of binary / paren expressions keeps structure
-    for name, needle in (("visit_BinaryOp", "self.visit(node.left)+node.op+self.visit(node.right)"),
-                         ("visit_ParenExpr", "'('+self.visit(node.node)+')'"),
+    bo = tm.func("PrintNode.visit_BinaryOp")
+    rets = [r for r in ast.walk(bo) if isinstance(r, ast.Return)]
+    rnames = set(a.targets[0].id for a in ast.walk(bo) if isinstance(a, ast.Assign) and isinstance(a.targets[0], ast.Name)
+                 and "self.visit(node.right)" in tm.seg(a.value))
+    ok = len(rets) == 1 and (pat.match(pat.parse("self.visit(node.left) + node.op + self.visit(node.right)")[1], rets[0].value, {})
+                             or any(pat.match(pat.parse("self.visit(node.left) + node.op + %s" % r_)[1], rets[0].value, {}) for r_ in rnames))
+    run.check(R5, "todict.PrintNode.visit_BinaryOp", ok,
+              "visit_BinaryOp no longer prints its operands in source order with the operator between them", tm.loc(bo))
+    # a unary right operand is parenthesised: `a - -b` must not become `a--b` (decrement in C, invalid in Fortran)
+    par = [a for a in ast.walk(bo) if isinstance(a, ast.Assign) and pat.match(pat.parse("MV_R = '(' + MV_R + ')'")[1], a, {})
+           and any("UnaryOp" in tm.seg(t) for t, pol in pyflow.dominating_tests(a, stop=bo) if pol)]
+    run.check(R5, "todict.PrintNode.visit_BinaryOp:unary-right", len(par) == 1 and par[0].targets[0].id in rnames,
+              "when the right operand of a binary operator is a unary expression it must be printed in parentheses "
+              "(`3 - -2` printed as `3--2` is a decrement in C and two consecutive operators in Fortran)", tm.loc(bo))
+    for name, needle in (("visit_ParenExpr", "'('+self.visit(node.node)+')'"),
                          ("visit_UnaryOp", "node.op+self.visit(node.node)")):
         fn = tm.func("PrintNode." + name)
         run.check(R5, "todict.PrintNode.%s" % name, needle in _norm(tm.seg(fn)),
